@@ -18,10 +18,13 @@ for f in sorted(glob.glob(os.path.join(os.path.dirname(os.path.dirname(os.path.a
                 rules.append(rr + ' (via ' + p + ')')
     notes = (m.get('needs_to_manifest') or '').strip().splitlines()
     first = next((l.strip('# ').strip() for l in notes if l.strip()), '')
-    rows.append((name, 'yes' if m.get('confirmed') else 'NO',
+    rnd = str(m.get('round', 1))
+    fd = m.get('first_detected')
+    blind = '' if rnd == '1' else ('yes' if fd else 'no')
+    rows.append((name, rnd, 'yes' if m.get('confirmed') else 'NO', blind,
                  ', '.join(rules) if rules else ('— (missed)' if not m.get('detected') else ''),
                  first[:110]))
-print('| seed | confirmed | reported by | what it is |')
-print('|---|---|---|---|')
+print('| seed | round | confirmed | reported on first (blind) run | reported by (now) | what it is |')
+print('|---|---|---|---|---|---|')
 for r in rows:
     print('| ' + ' | '.join(r) + ' |')
